@@ -6,7 +6,9 @@ P=$(realpath "$1"); shift
 cd /repo || exit 2
 if ! git diff --quiet; then echo "REFUSED: /repo has uncommitted changes"; exit 2; fi
 git apply "$P" || { echo "patch does not apply"; exit 2; }
-trap 'git -C /repo checkout -q -- .' EXIT
+# evidence/ is rewritten by every run: keep the clean-tree records (a seeded run must never end up committed as evidence)
+rm -rf /verif/work/evidence.keep; cp -r /verif/evidence /verif/work/evidence.keep
+trap 'git -C /repo checkout -q -- .; rm -rf /verif/evidence; mv /verif/work/evidence.keep /verif/evidence' EXIT
 for id in "$@"; do
   out=$(cd /verif && ./check "$id" --tier quick 2>&1)
   echo "$out" | grep -E "^(C[0-9]+ tier|VIOLATION|INFRA|PROOF)" | cut -c1-300
